@@ -277,3 +277,34 @@ def wide_algs(case, level="quick"):
             if M // p >= mn:
                 out.append({"kind": "batch", "p": p, "min": mn})
     return out
+
+
+# -- S-ids: node ids that are not in topological order (a sink whose id sorts
+#    before its predecessors), scarce machines
+
+def ids_scope(level="quick"):
+    dags = [("join-rev", dag("join", [1, 1, 1], [0, 0], ids=[1, 2, 0])),
+            ("join-rev2", dag("join", [2, 1, 1], [1, 1], ids=[7, 12, 10])),
+            ("wjoin-rev", dag("wjoin", [1, 1, 1, 1], 0, ids=[5, 3, 9, 1])),
+            ("diamond-rev", dag("diamond", [1, 1, 2, 1], [0, 1, 0, 1],
+                                ids=[2, 3, 1, 0])),
+            ("chain3-rev", dag("chain3", [1, 1, 1], [0, 0], ids=[2, 1, 0])),
+            ("fork-rev", dag("fork", [1, 1, 2], [1, 0], ids=[2, 0, 1]))]
+    if level == "thorough":
+        dags += [("bfly-rev", dag("bfly", [1, 1, 1, 1], 1, ids=[3, 2, 1, 0])),
+                 ("wjoin-rev2", dag("wjoin", [1, 2, 1, 1], [1, 0, 2],
+                                    ids=[11, 2, 10, 1]))]
+    wb = dag("join", [1, 1, 1], [0, 0], ids=[2, 1, 0])
+    for M in (1, 2):
+        for machines in CLUSTERS[M][:2]:
+            for label, wa in dags:
+                for second in (None, 0, 2):
+                    obs = [mkobs("a", 0, 1, 1, 1, 1, "wa")]
+                    wfs = {"wa": wa}
+                    if second is not None:
+                        if M == 1 and second == 0:
+                            continue
+                        obs.append(mkobs("b", second, 1, 1, 1, 1, "wb"))
+                        wfs["wb"] = wb
+                    cfg = mkcfg(machines, obs, (100, 10), (100, 10), 2, 2)
+                    yield "S-ids", mkcase(cfg, wfs)
